@@ -42,6 +42,11 @@ func hasIPLiteral(c Cfg) bool {
 
 func c06Gen(t *rapid.T) C06Case {
 	c := genValidCfg(t)
+	if !c.Credentialed && !c.PNA && !c.PNANoCORS && chance(t, "wide", 6) {
+		// many patterns around one base host: Config() lists them in its own order, so the twin is built in another
+		// insertion order than the original
+		c.Origins, c.TolPSL, c.TolInsecure = patStrings(genWidePatList(t)), true, true
+	}
 	// make IP literals, trailing dots and subsuming patterns frequent
 	if !c.AllowAll() && chance(t, "addip", 35) {
 		extra := pick(t, "ip", []string{"http://[::1]", "http://[::1]:9090", "http://127.0.0.1:*", "http://[::1]:*"})
